@@ -120,6 +120,7 @@ func (p item) Compare(otherP item) int {
 
 // Count returns the total number of uncofirmed transactions.
 func (mp *Pool) Count() int {
+	verifLockYield("rlock")
 	mp.lock.RLock()
 	defer mp.lock.RUnlock()
 	return mp.count()
@@ -132,6 +133,7 @@ func (mp *Pool) count() int {
 
 // ContainsKey checks if the transactions hash is in the Pool.
 func (mp *Pool) ContainsKey(hash util.Uint256) bool {
+	verifLockYield("rlock")
 	mp.lock.RLock()
 	defer mp.lock.RUnlock()
 
@@ -150,6 +152,7 @@ func (mp *Pool) containsKey(hash util.Uint256) bool {
 // HasConflicts returns true if the transaction is already in the pool or in the Conflicts attributes
 // of the pooled transactions or has Conflicts attributes against the pooled transactions.
 func (mp *Pool) HasConflicts(t *transaction.Transaction, fee Feer) bool {
+	verifLockYield("rlock")
 	mp.lock.RLock()
 	defer mp.lock.RUnlock()
 
@@ -238,6 +241,7 @@ func (mp *Pool) Add(t *transaction.Transaction, fee Feer, data ...any) error {
 	if data != nil {
 		pItem.data = data[0]
 	}
+	verifLockYield("lock")
 	mp.lock.Lock()
 	if mp.containsKey(t.Hash()) {
 		mp.lock.Unlock()
@@ -370,6 +374,7 @@ func (mp *Pool) Add(t *transaction.Transaction, fee Feer, data ...any) error {
 // Remove removes an item from the mempool if it exists there (and does
 // nothing if it doesn't).
 func (mp *Pool) Remove(hash util.Uint256) {
+	verifLockYield("lock")
 	mp.lock.Lock()
 	mp.removeInternal(hash)
 	if mp.updateMetricsCb != nil {
@@ -431,6 +436,7 @@ func (mp *Pool) removeFromMapWithFeesAndAttrs(itm item) {
 // only the transactions for which it returns true result. It's used to quickly
 // drop a part of the mempool that is now invalid after the block acceptance.
 func (mp *Pool) RemoveStale(isOK func(*transaction.Transaction) bool, feer Feer) {
+	verifLockYield("lock")
 	mp.lock.Lock()
 	policyChanged := mp.loadPolicy(feer)
 	// We can reuse already allocated slice
@@ -520,6 +526,7 @@ func New(capacity int, enableSubscriptions bool, updateMetricsCb func(int)) *Poo
 // SetResendThreshold sets a threshold after which the transaction will be considered stale
 // and returned for retransmission by `GetStaleTransactions`.
 func (mp *Pool) SetResendThreshold(h uint32, f func(*transaction.Transaction, any)) {
+	verifLockYield("lock")
 	mp.lock.Lock()
 	defer mp.lock.Unlock()
 	mp.resendThreshold = h
@@ -534,6 +541,7 @@ func (mp *Pool) resendStaleItems(items []item) {
 
 // TryGetValue returns a transaction and its fee if it exists in the memory pool.
 func (mp *Pool) TryGetValue(hash util.Uint256) (*transaction.Transaction, bool) {
+	verifLockYield("rlock")
 	mp.lock.RLock()
 	defer mp.lock.RUnlock()
 	if tx, ok := mp.verifiedMap[hash]; ok {
@@ -545,6 +553,7 @@ func (mp *Pool) TryGetValue(hash util.Uint256) (*transaction.Transaction, bool) 
 
 // TryGetData returns data associated with the specified transaction if it exists in the memory pool.
 func (mp *Pool) TryGetData(hash util.Uint256) (any, bool) {
+	verifLockYield("rlock")
 	mp.lock.RLock()
 	defer mp.lock.RUnlock()
 	if tx, ok := mp.verifiedMap[hash]; ok {
@@ -569,6 +578,7 @@ func (mp *Pool) TryGetData(hash util.Uint256) (any, bool) {
 
 // GetVerifiedTransactions returns a slice of transactions with their fees.
 func (mp *Pool) GetVerifiedTransactions() []*transaction.Transaction {
+	verifLockYield("rlock")
 	mp.lock.RLock()
 	defer mp.lock.RUnlock()
 
@@ -658,6 +668,7 @@ func (mp *Pool) checkTxConflicts(tx *transaction.Transaction, feer Feer) ([]*tra
 // transaction and the function returns true. If no, the transaction tx is
 // considered to be invalid, the function returns false.
 func (mp *Pool) Verify(tx *transaction.Transaction, feer Feer) bool {
+	verifLockYield("rlock")
 	mp.lock.RLock()
 	defer mp.lock.RUnlock()
 	_, err := mp.checkTxConflicts(tx, feer)
@@ -690,6 +701,7 @@ func (mp *Pool) removeConflictsOf(tx *transaction.Transaction) {
 // thus IterateVerifiedTransactions will block any write mempool operation,
 // use it with care. Do not modify transaction or data via `cont`.
 func (mp *Pool) IterateVerifiedTransactions(cont func(tx *transaction.Transaction, data any) bool) {
+	verifLockYield("rlock")
 	mp.lock.RLock()
 	defer mp.lock.RUnlock()
 
